@@ -26,6 +26,8 @@ def run(ctx, prog, facts, tier):
     rules_c02.check_capture_footprint(ctx, prog, I)
     rules_c02.check_take_action_composition(ctx, prog, I, mvs[::4])
     rules_c02.check_step_semantics(ctx, prog, rules_c02.step_semantics_moves(tier == 'quick'), rule='C10.5')
+    from . import rules_c09
+    rules_c09.check_place_transitions(ctx, prog, I)       # the board a placement stores (who-may-write relies on it)
     # base case of the invariant for positions that come from text
     rules_text.check_parsed_board_consistent(ctx, prog, 'C10', full=(tier != 'quick'))
     ctx.assumptions += [
